@@ -405,6 +405,40 @@ def r2_conditional_writer(chk: Check) -> None:
         chk.ok("C16.R2", writer, "no subscript readers of statistic.failures", "only iteration / truthiness / .get readers exist", writer.loc())
 
 
+def r2b_failures_once(chk: Check) -> None:
+    chk.rule("C16.R2b", "ONCE / STATUS-INDEPENDENT(run-wide failure store -> JUnit test case): `ctx.statistic.failures[label]` ACCUMULATES the unique failures of an operation over the whole run (C05.O8); a sink that is fed from it inside the per-ScenarioFinished arm repeats everything collected so far for every later failing scenario, and a sink that additionally requires `event.status == FAILURE` never sees failures recorded on a scenario whose status was overridden to ERROR", floor=1)
+    P = chk.project
+    n = 0
+    for fn in P.module(JUNIT).functions.values():
+        if isinstance(fn.node, ast.Lambda):
+            continue
+        g = cfg_of(fn)
+        for c in body_calls(fn):
+            if not (isinstance(c.func, ast.Name) and c.func.id == "add_failure"):
+                continue
+            fed = any("statistic.failures" in t for a in c.args for t in canon(fn, a)) or "statistic.failures" in unparse(c, 300)
+            # the loop variable of `for label, failures in ctx.statistic.failures.items()` also comes from the store
+            loops = [a for a in ancestors(c) if isinstance(a, ast.For) and "statistic.failures" in unparse(a.iter, 200)]
+            if not (fed or loops):
+                continue
+            n += 1
+            facts = known_conditions(g, g.stmt_nodes_containing(c))
+            per_event = any("ScenarioFinished" in k and v for k, v in facts.items())
+            status_bound = any("event.status" in k and v for k, v in facts.items())
+            construct = f"{fn.name}: failures of the run-wide store are attached once, whatever the scenario's status"
+            if per_event:
+                chk.violation("C16.R2b", fn, construct,
+                              "add_failure is fed from the cumulative `ctx.statistic.failures[label]` on every failing ScenarioFinished"
+                              + (" with status FAILURE" if status_bound else "")
+                              + ": an operation that fails in coverage AND fuzzing gets the same `<failure>` twice (`1 unique failure` on the console, two identical elements with the same test case id in junit.xml)"
+                              + ("; failed checks recorded on a scenario that ends ERROR (invalid header example, a later network error under --continue-on-failure) are never written: `failures=\"0\"` while the console says `1 failure, 1 error`" if status_bound else ""),
+                              fn.loc(c))
+            else:
+                chk.ok("C16.R2b", fn, construct, "attached outside the per-scenario arm", fn.loc(c))
+    if n == 0:
+        chk.undecided("C16.R2b", JUNIT, "add_failure fed from statistic.failures", "no such call found", JUNIT)
+
+
 # --------------------------------------------------------------------------------------------- R3 / R4 / R5
 def r3_structured_writers(chk: Check) -> None:
     chk.rule("C16.R3", "HAR and JUnit documents are produced only through harfile / junit_xml constructors (no string assembly); one entry per recorder interaction; preserve-bytes arms use encoded_body on both sides", floor=6)
@@ -702,4 +736,4 @@ def r7_handlers(chk: Check) -> None:
 
 
 def rules(tier: str) -> list:  # type: ignore[type-arg]
-    return [r1_yaml_flow, r1c_line_protocol, r2_conditional_writer, r3_structured_writers, r6_total_operations, r7_handlers, r8_header_fields]
+    return [r1_yaml_flow, r1c_line_protocol, r2_conditional_writer, r2b_failures_once, r3_structured_writers, r6_total_operations, r7_handlers, r8_header_fields]
